@@ -10,8 +10,6 @@ namespace GlueVerif.Lemmas.C04
 open GlueVerif.ArrayUtil GlueVerif.C04
 open GlueVerif.Coords (Sel selOf selsOf selShape maskFilter ViewErr)
 
-/-- Index tuple of the reduced dataset → index tuple of the parent. -/
-def embed (ix : List (Option Nat)) (idx : List Nat) : List Nat := mergeView id 0 ix idx
 
 theorem embed_none_cons (ix : List (Option Nat)) (j : Nat) (js : List Nat) :
     embed (none :: ix) (j :: js) = j :: embed ix js := rfl
@@ -20,12 +18,6 @@ theorem embed_some (ix : List (Option Nat)) (k : Nat) (js : List Nat) :
     embed (some k :: ix) js = k :: embed ix js := by
   cases js <;> rfl
 
-/-- The indices fit the parent shape. -/
-def ixValid : List Nat → List (Option Nat) → Bool
-  | [], [] => true
-  | h :: hs, none :: ix => ixValid hs ix
-  | h :: hs, some k :: ix => decide (k < h) && ixValid hs ix
-  | _, _ => false
 
 theorem selOf_int_nat {h k : Nat} (hk : k < h) : selOf h (.int (k : Int)) = .ok (.scalar k) := by
   have h1 : (-(h : Int)) ≤ (k : Int) ∧ (k : Int) < h := by omega
@@ -450,5 +442,86 @@ theorem reducedShape_setIndices : ∀ (psh : List Nat) (old new : List (Option N
     simp only [List.zip_cons_cons, List.all_cons, Bool.and_eq_true, beq_iff_eq] at hp
     have ih := reducedShape_setIndices hs old new (by simpa using hl) hp.2
     cases o <;> cases n <;> simp_all [reducedShape]
+
+/-! ### `_indices_subset_state` selects exactly the reduced dataset (histograms) -/
+
+theorem stateEntryHas_fullSlice (h i : Nat) (hi : i < h) : Spec.stateEntryHas h fullSlice i = true := by
+  have hs : sliceIndices none none none h = some (0, (h : Int), 1) := by
+    simp [sliceIndices]
+  simp only [Spec.stateEntryHas, fullSlice, hs]
+  rw [contains_pyRange_iff _ _ _ (by decide)]
+  simp
+  omega
+
+theorem flatMap_range_single {α : Type} (h k : Nat) (hk : k < h) (g : Nat → List α) :
+    (List.range h).flatMap (fun i => if i = k then g i else []) = g k := by
+  induction h with
+  | zero => omega
+  | succ n ih =>
+    rw [List.range_succ, List.flatMap_append]
+    by_cases hkn : k = n
+    · subst hkn
+      have : (List.range k).flatMap (fun i => if i = k then g i else []) = [] := by
+        rw [List.flatMap_eq_nil_iff]
+        intro i hi
+        rw [List.mem_range] at hi
+        rw [if_neg (by omega)]
+      simp [this]
+    · have hk' : k < n := by omega
+      rw [ih hk']
+      simp [show ¬ n = k from fun h => hkn h.symm]
+
+/-- Filtering the parent's index tuples by the indices state gives, in order, the embedded index
+tuples of the reduced dataset. -/
+theorem filter_indices_state : ∀ (psh : List Nat) (ix : List (Option Nat)), ixValid psh ix = true →
+    (allIdx psh).filter (Spec.sliceHolds psh (indicesSlices ix)) =
+      (allIdx (reducedShape psh ix)).map (embed ix)
+  | [], [], _ => by simp [allIdx, cartG, Spec.sliceHolds, reducedShape, embed, mergeView]
+  | [], _ :: _, hv => by simp [ixValid] at hv
+  | _ :: _, [], hv => by simp [ixValid] at hv
+  | h :: hs, some k :: ix, hv => by
+    simp only [ixValid, Bool.and_eq_true, decide_eq_true_eq] at hv
+    have ih := filter_indices_state hs ix hv.2
+    have hred : reducedShape (h :: hs) (some k :: ix) = reducedShape hs ix := rfl
+    rw [hred, allIdx_cons, List.filter_flatMap]
+    have hrow : ∀ i, ((allIdx hs).map (i :: ·)).filter
+        (Spec.sliceHolds (h :: hs) (indicesSlices (some k :: ix))) =
+        if i = k then ((allIdx (reducedShape hs ix)).map (embed ix)).map (i :: ·) else [] := by
+      intro i
+      rw [List.filter_map]
+      by_cases hik : i = k
+      · subst hik
+        rw [if_pos rfl, ← ih]
+        congr 1
+        apply List.filter_congr
+        intro t _
+        simp [Function.comp, indicesSlices, Spec.sliceHolds, Spec.stateEntryHas, wrapD_nat]
+      · rw [if_neg hik]
+        rw [List.map_eq_nil_iff, List.filter_eq_nil_iff]
+        intro t _
+        simp [Function.comp, indicesSlices, Spec.sliceHolds, Spec.stateEntryHas, wrapD_nat, hik]
+    simp only [hrow]
+    rw [flatMap_range_single h k hv.1, List.map_map]
+    apply List.map_congr_left
+    intro t _
+    simp [Function.comp, embed_some]
+  | h :: hs, none :: ix, hv => by
+    simp only [ixValid] at hv
+    have ih := filter_indices_state hs ix hv
+    have hred : reducedShape (h :: hs) (none :: ix) = h :: reducedShape hs ix := rfl
+    rw [hred, allIdx_cons, allIdx_cons, List.filter_flatMap, List.map_flatMap]
+    apply List.flatMap_congr
+    intro i hi
+    rw [List.mem_range] at hi
+    rw [List.filter_map, List.map_map]
+    have hR : List.map (embed (none :: ix) ∘ fun x => i :: x) (allIdx (reducedShape hs ix)) =
+        List.map (fun x => i :: x) (List.map (embed ix) (allIdx (reducedShape hs ix))) := by
+      rw [List.map_map]; rfl
+    rw [hR, ← ih]
+    congr 1
+    apply List.filter_congr
+    intro t _
+    have : indicesSlices (none :: ix) = fullSlice :: indicesSlices ix := rfl
+    simp [Function.comp, this, Spec.sliceHolds, stateEntryHas_fullSlice h i hi]
 
 end GlueVerif.Lemmas.C04
